@@ -1,8 +1,40 @@
-(* C06 - placeholder until the acceptance-soundness development is in place (see DESIGN.md 7 C06). *)
-From DL Require Import Base Lexer Parser Eval Shape.
-(* formerly accepted malformed strings are rejected by the model of the repaired parser *)
+(* C06 - malformed shape strings raise SyntaxError when the annotation is built.
+   For the model of TensorTypeBase(shape) ([parse_shape]) and EVERY string (no length bound):
+   - [C06_accept_sound]: if it is accepted, the string is a non-empty whitespace-separated list of dimensions,
+     each of one of the documented forms ([dim_form]: `...`; `*name`; an expression whose token sequence is the
+     printing of a stratified expression - operands and infix operators alternating, functions followed by an
+     argument list of the right arity, balanced non-empty parentheses, identifiers matching the pattern - with the
+     grammar's postfix program; or `name=` followed by such an expression in which the name does not occur), with
+     at most one `...` / `*name` marker;
+   - [C06_only_syntax_error]: if it is rejected, the exception is SyntaxError - nothing else, in particular not
+     ValueError, IndexError or RecursionError;
+   - [C06_no_late_error]: evaluating an accepted dimension later can only fail because a name is unbound (turned
+     into the invalid-reference report) or at an undefined point of arithmetic (known finding K1): never for a
+     reason of form ("Invalid stack", IndexError, TypeError).
+   Completeness (every string of the grammar is accepted) is C05.  Resource limits of CPython (recursion depth for
+   about 1000 nested parentheses) are outside the model (DESIGN.md 10). *)
+From DL Require Import Base Lexer Parser Eval Shape Grammar Denote ShapeSound.
+
+Theorem C06_accept_sound : forall s ty, parse_shape s = Ok ty ->
+  split_ws s "" [] <> [] /\ Forall2 dim_form (split_ws s "" []) (t_shape ty) /\ markers (t_shape ty) <= 1.
+Proof. exact parse_shape_sound. Qed.
+Theorem C06_only_syntax_error : forall s x, parse_shape s = Err x -> x = SyntaxErr.
+Proof. exact parse_shape_err. Qed.
+Theorem C06_no_late_error : forall s d sc use_cached x, expression_from_string s = Ok d -> d_anon d = false ->
+  evaluate d sc use_cached = Err x -> arithmetic_or_unbound x.
+Proof. exact no_late_error. Qed.
+
+(* the formerly accepted malformed strings, and a few accepted ones (non-vacuity) *)
 Example C06_corpus_rejected :
   forallb (fun s => match parse_shape s with Err SyntaxErr => true | _ => false end)
     ["a(b)+"; "isqrt(2)b+"; "(a)(b)*"; "1(2)+"; "isqrt,(a)"; "1a=3"; "=3"; "a+b=3"; "x=..."; "x=*b"; "x=x";
-     "(...)"; "a(+)b"; "isqrt(*b)"; "a b ... ..."; ""; "a="; "a+"; "+a"; "a++b"; "()"; "a()"] = true.
+     "(...)"; "a(+)b"; "isqrt(*b)"; "a b ... ..."; ""; "a="; "a+"; "+a"; "a++b"; "()"; "a()"; "_n=3"; "min=min"] = true.
 Proof. vm_compute. reflexivity. Qed.
+Example C06_accepted_examples :
+  forallb (fun s => match parse_shape s with Ok _ => true | _ => false end)
+    ["a"; "b c=3 *g a+1"; "... h w"; "n=isqrt(min(a,4)^2)/(b-1) 07"; "((a))"] = true.
+Proof. vm_compute. reflexivity. Qed.
+
+Redirect "C06.assumptions.1" Print Assumptions C06_accept_sound.
+Redirect "C06.assumptions.2" Print Assumptions C06_only_syntax_error.
+Redirect "C06.assumptions.3" Print Assumptions C06_no_late_error.
